@@ -1,5 +1,5 @@
-(* C20 -- extraction of the exact Hessenberg determinant oracle. *)
+(* C20 -- extraction of the exact Hessenberg determinant oracle and of the HEAD error-vector model. *)
 Require Import ExtrOcamlBasic ExtrOcamlNativeString.
 Require Import ZArith.
-Require Import MPSV.Hess.HessModel MPSV.Hess.HessGauss.
-Extraction "../ocaml/hess.ml" hess_det_gauss dhess_coded_gauss hess_bound_gauss modup Z.add Z.mul Z.opp Z.compare.
+Require Import MPSV.Hess.HessModel MPSV.Hess.HessGauss MPSV.Hess.HessDyadic.
+Extraction "../ocaml/hess.ml" hess_det_gauss dhess_coded_gauss hess_bound_gauss modup mhess_head_dy Z.add Z.mul Z.opp Z.compare.
